@@ -15,10 +15,39 @@ def vid(*parts):
     return hashlib.sha256(jdump(parts).encode()).hexdigest()[:12]
 
 
+_PAR = {"oracle": None}
+
+
+def _par_eval(case):
+    try:
+        return _PAR["oracle"](case)
+    except Exception as e:  # the pipeline itself failing on a valid input is a violation of "never fails"
+        return f"raised {type(e).__name__}: {e}"
+
+
 def run_cases(cases, oracle, name, limit=None, module=None):
+    import os
     ev = 0
     seen = set()
     viol = []
+    workers = int(os.environ.get("VERIF_PAR", "0") or 0)
+    if workers > 1:
+        # thorough tier: the same cases, evaluated by a pool of forked workers (the oracle is inherited, not pickled)
+        import multiprocessing as mp
+        cases = list(cases)
+        if len(cases) >= 400:
+            _PAR["oracle"] = oracle
+            with mp.get_context("fork").Pool(workers) as pool:
+                for case, msg in zip(cases, pool.imap(_par_eval, cases, chunksize=16)):
+                    ev += 1
+                    seen.add(jdump(case))
+                    if msg:
+                        viol.append({"id": vid(name, case), "input": case, "what": msg,
+                                     "replay": {"module": module or oracle.__module__, "fn": "replay", "oracle": name}})
+                        if len(viol) >= 3:
+                            pool.terminate()
+                            break
+            return {"evaluations": ev, "distinct": len(seen), "violations": viol}
     for case in cases:
         ev += 1
         key = jdump(case)
@@ -48,7 +77,7 @@ def oracle_c01(samples):
 @bounded("C01", "ir_cover_enumerated_samples")
 def c01(tier, seed):
     r = run_cases(sample_lists(tier, seed), oracle_c01, "c01")
-    r["bound"] = "all single objects over keys {a,b} x 21 value shapes, 22x22 core pairs, seeded pairs/triples (300 quick / 6000 thorough)"
+    r["bound"] = "all single objects over keys {a,b} x 21 value shapes, 22x22 core pairs, seeded pairs/triples (300 quick) / pairs to quadruples (60000 thorough) + 40000 random nested sample lists over keys {a,b,c} (thorough)"
     r["function"] = "MetadataGenerator.generate + ModelRegistry.process_meta_data/merge_models (graph-level inh oracle)"
     return r
 
@@ -61,10 +90,11 @@ def route(value, t, acc):
             route(value, t.type, acc)
         return
     if isinstance(t, DUnion):
+        # which member "was chosen" for a value is not recorded in the final graph: when several members admit it (two models in one
+        # union), it is routed to each of them - every model then sees a superset of its objects, which can only justify more
         for m in t.types:
             if inh(value, m):
                 route(value, m, acc)
-                return
         return
     if isinstance(t, (ModelPtr, ModelMeta)):
         m = t.type if isinstance(t, ModelPtr) else t
